@@ -39,9 +39,10 @@ fn get_default_stub<T, F>(mut f: F) -> T where F: FnMut(&Dispatch) -> T {
 fn current_stub() -> LevelFilter { tf(CUR_MAX.load(SeqCst) as u8) }
 fn install(d: &Dispatch, max: u8) { CUR_DISPATCH.store(d as *const Dispatch as usize, SeqCst); CUR_MAX.store(max as usize, SeqCst); }
 use std::sync::Arc;
-struct St { enabled_calls: AtomicUsize, events: AtomicUsize, meta_level_ok: AtomicUsize, meta_target_ok: AtomicUsize, event_level: AtomicUsize, want_level: AtomicUsize }
-fn st(want: u8) -> Arc<St> { Arc::new(St { enabled_calls: AtomicUsize::new(0), events: AtomicUsize::new(0), meta_level_ok: AtomicUsize::new(1), meta_target_ok: AtomicUsize::new(1), event_level: AtomicUsize::new(0), want_level: AtomicUsize::new(want as usize) }) }
+struct St { enabled_calls: AtomicUsize, events: AtomicUsize, meta_level_ok: AtomicUsize, meta_target_ok: AtomicUsize, event_level: AtomicUsize, want_level: AtomicUsize, norm: AtomicUsize }
+fn st(want: u8) -> Arc<St> { Arc::new(St { enabled_calls: AtomicUsize::new(0), events: AtomicUsize::new(0), meta_level_ok: AtomicUsize::new(1), meta_target_ok: AtomicUsize::new(1), event_level: AtomicUsize::new(0), want_level: AtomicUsize::new(want as usize), norm: AtomicUsize::new(0) }) }
 const TARGET: &str = "my_crate::module";
+const FILE: &str = "src/f.rs"; const MODP: &str = "my_crate::m";
 struct Rec { accept: bool, s: Arc<St> }
 impl Collect for Rec {
     fn register_callsite(&self, _: &'static Metadata<'static>) -> Interest { Interest::sometimes() }
@@ -57,6 +58,18 @@ impl Collect for Rec {
     fn event(&self, e: &Event<'_>) {
         self.s.events.fetch_add(1, SeqCst);
         let l = e.metadata().level();
+        // norm: 0 = not asked, 1 = normalised metadata names the record's own target / level / file / line / module, 2 = it does not
+        if self.s.norm.load(SeqCst) == 9 {
+            use crate::NormalizeEvent;
+            let ok = match e.normalized_metadata() {
+                Some(m) => e.is_log() && m.target().as_ptr() == TARGET.as_ptr() && m.target().len() == TARGET.len()
+                    && *m.level() == tl(self.s.want_level.load(SeqCst) as u8) && m.line() == Some(7)
+                    && m.file().map(|f| (f.as_ptr(), f.len())) == Some((FILE.as_ptr(), FILE.len()))
+                    && m.module_path().map(|f| (f.as_ptr(), f.len())) == Some((MODP.as_ptr(), MODP.len())),
+                None => false,
+            };
+            self.s.norm.store(if ok { 1 } else { 2 }, SeqCst);
+        }
         self.s.event_level.store(if *l == tracing_core::Level::ERROR { 1 } else if *l == tracing_core::Level::WARN { 2 } else if *l == tracing_core::Level::INFO { 3 } else if *l == tracing_core::Level::DEBUG { 4 } else { 5 }, SeqCst);
     }
     fn enter(&self, _: &span::Id) {}
@@ -150,4 +163,21 @@ fn c18_format_trace_emits_one_event_iff_collector_accepts() {
     assert!(s.events.load(SeqCst) == accept as usize, "C18.format_trace.exactly_one_event_iff_collector_accepts_else_none");
     assert!(!accept || s.event_level.load(SeqCst) == lvl as usize, "C18.format_trace.event_carries_the_records_level");
     assert!(s.meta_level_ok.load(SeqCst) == 1 && s.meta_target_ok.load(SeqCst) == 1, "C18.format_trace.collector_is_asked_about_the_records_own_level_and_target");
+}
+
+// after normalisation the event names the record's own target, level, file, line and module path
+#[kani::proof]
+#[kani::unwind(20)]
+#[kani::stub(core::fmt::Formatter::pad, pad_stub)]
+#[kani::stub(tracing_core::dispatch::get_default, get_default_stub)]
+#[kani::stub(tracing_core::metadata::LevelFilter::current, current_stub)]
+fn c18_normalized_metadata_names_the_records_own_origin() {
+    let lvl: u8 = nd(); kani::assume(lvl >= 1 && lvl <= 5);
+    let s = st(lvl); s.norm.store(9, SeqCst);
+    let d = Dispatch::__verif_unregistered(Rec { accept: true, s: s.clone() });
+    install(&d, 5);
+    let rec = log::Record::builder().args(format_args!("hello")).level(ll(lvl)).target(TARGET).file(Some(FILE)).line(Some(7)).module_path(Some(MODP)).build();
+    let _ = crate::format_trace(&rec);
+    assert!(s.events.load(SeqCst) == 1, "C18.normalize.one_event");
+    assert!(s.norm.load(SeqCst) == 1, "C18.normalize.metadata_carries_the_records_target_level_file_line_module");
 }
